@@ -194,10 +194,13 @@ theorem demo_wrong_txn_noop {M : Machine} (d : Demo.State M) (t' : TxnId) (ht : 
 
   `tpc_finish(t, f)` calls `f(tid)` before the commit point.  If `f` raises, the transaction has not
   finished, yet (model following FileStorage.tpc_finish / DemoStorage.tpc_finish line by line) the
-  mandated abort can no longer restore the state.  These are NEGATIVE results with concrete
-  witnesses; both were replayed on the real code (harness failure kind `finishcb`,
-  signatures `C05:finish-callback-failure:…`).  `abort_restores` above is unaffected: its histories
-  are lists of `Op`, and the raising callback is not an `Op`. -/
+  mandated abort can no longer restore the state.  A failing callback is NOT one of the error kinds
+  C05 lists (I/O failure, quota, conflict, over-long metadata, a foreign failing vote), so this is
+  outside the property: the two results below are NEGATIVE observations with concrete witnesses, both
+  replayed on the real code (harness probe `finishcb`, counted as
+  `observation:finish-callback-failure:*`; stand-alone scripts corpus/C05/observation_finish_callback_*.py).
+  `abort_restores` above is unaffected: its histories are lists of `Op`, and the raising callback is
+  not an `Op`. -/
 
 /-- FileStorage: after `begin; store; vote; tpc_finish(t, raising f)` the storage has forgotten the
     transaction and freed the lock, `tpc_abort(t)` is ignored, and the voted bytes are still in the
